@@ -14,7 +14,7 @@ mkdir -p $R
 one() {
 	s=$1; d=/verif/seeded/$s; W=$R/w.$s; O=$R/o.$s
 	[ -s $d/patch.diff ] || return
-	id=$(python3 -c "import json;print(json.load(open('$d/meta.json'))['property'])")
+	id=$(python3 -c "import json;m=json.load(open('$d/meta.json'));print(m.get('audit_property',m['property']))")
 	git -C /repo worktree add -q --detach $W HEAD 2>/dev/null || { echo "$s ($id): cannot create worktree" > $R/r.$s; return; }
 	if git -C $W apply $d/patch.diff 2>/dev/null; then
 		mkdir -p $O
